@@ -251,6 +251,8 @@ def run(cx):
     cx.undecided = ["INFO: Keyword.mapping()/report iterate the set of replaced keywords (order of the *report*, not of cleaned content, is hash dependent)"]
     cx.guard(r1_hash_free)
     cx.guard(r1b_no_process_salt)
+    cx.current = cx.rule("C10.R1", "the pipeline and every stage iterate only ordered containers", floor=15)
+    cx.guard(feat.check_no_module_level_one_shots, [cx.repo.module(mn_) for mn_ in cx.repo.module_names("insights.cleaner")], "cleaner tables")
     cx.guard(r2_one_to_one)
     cx.guard(r3_empty)
     cx.guard(r5_no_shared_state)
